@@ -208,3 +208,39 @@ def static_vs_runtime(model, payload):
     if r.get("reproduced"):
         return r
     return _ctx_key_sweep() or r
+
+
+def _distinct_bindings_sweep():
+    """bindings that differ at a parameter by values the value hash separates (an int and the equal float, signed zeros,
+    a number and its text) get different entries -- whatever was hashed earlier in the process"""
+    from dds.fun_args import get_arg_ctx, get_arg_ctx_ast
+
+    def f(a, b=0.0):
+        return a
+
+    pairs = [(2, 2.0), (2.0, 2), (0, 0.0), (0.0, -0.0), (-0.0, 0.0), (7, "7"), (1.0, True), (10 ** 20, 1e20), ("", None)]
+    for x, y in pairs:
+        hx = dict(get_arg_ctx(f, (x,), {}).named_args)["a"]
+        hy = dict(get_arg_ctx(f, (y,), {}).named_args)["a"]
+        if hx == hy:
+            return {"reproduced": True, "detail": "def f(a, b=0.0): f(%r) and f(%r) get the same argument hash" % (x, y), "inputs": {"first": repr(x), "second": repr(y)}}
+        sx = dict(get_arg_ctx_ast(f, [ast.Constant(x)], OrderedDict()))["a"]
+        sy = dict(get_arg_ctx_ast(f, [ast.Constant(y)], OrderedDict()))["a"]
+        if sx != hx or sy != hy:
+            return {"reproduced": True, "detail": "literal %r / %r: static hash differs from the run-time hash" % (x, y), "inputs": {"first": repr(x), "second": repr(y)}}
+    # the default 0.0 is not the int 0
+    d0 = dict(get_arg_ctx(f, (1,), {}).named_args)["b"]
+    i0 = dict(get_arg_ctx(f, (1, 0), {}).named_args)["b"]
+    if d0 == i0:
+        return {"reproduced": True, "detail": "def f(a, b=0.0): f(1) and f(1, 0) get the same hash for b", "inputs": {"call": "f(1) vs f(1, 0)"}}
+    return None
+
+
+_falsy_default1 = falsy_default
+
+
+def falsy_default(model, payload):
+    r = _falsy_default1(model, payload)
+    if r.get("reproduced"):
+        return r
+    return _distinct_bindings_sweep() or r
